@@ -498,6 +498,24 @@ func c16Pairs(c *Ctx, pr *PropertyRun, prop string, keep func(what string) bool)
 				detail += "; the decoder alters the result of " + pa.decCall + " (" + w + ")"
 			}
 		}
+		// ... and it is the ONLY way in: a second parser tried when the
+		// inverse primitive refuses the text (another layout, a lenient
+		// fallback) accepts texts the encoder never writes — zone names HTTP
+		// does not have, offsets — and reads them as some instant instead of
+		// rejecting them
+		if ok && du != nil {
+			for _, u := range calleeUses(c, dec, 2) {
+				alt := u.name == "time.Parse" || u.name == "time.ParseInLocation" || u.name == "net/http.ParseTime"
+				if !alt || u.site == du.site {
+					continue
+				}
+				if u.name == pa.decCall && len(u.consts) > 0 && len(du.consts) > 0 && u.consts[0] == du.consts[0] {
+					continue // the same parse written twice
+				}
+				ok = false
+				detail += "; the decoder has a second parser (" + u.name + " at " + p.instrPos(u.site) + ") beside " + pa.decCall
+			}
+		}
 		r.Ob(ok)
 		r.Sample(map[string]interface{}{"primitive": pa.what, "encoder": pa.enc + " -> " + pa.encCall, "decoder": pa.dec + " -> " + pa.decCall, "constants": detail, "ok": ok})
 		if !ok {
